@@ -468,7 +468,8 @@ class Check:
             'wall_s': round(time.time() - self.t0, 2),
             'violations': nviol,
         }
-        json.dump(ev, open(os.path.join(VERIF, 'evidence', self.pid + '.json'), 'w'), indent=1)
+        evpath = os.path.join(VERIF, 'replays', self.pid + '_replay_evidence.json') if getattr(self, 'is_replay', False) else os.path.join(VERIF, 'evidence', self.pid + '.json')
+        json.dump(ev, open(evpath, 'w'), indent=1)
         self.say('%s %s: obligations %d/%d, cases %d (nontrivial %d), disagreements %d, failing inputs %d, violations %d, %.1fs'
                  % (self.pid, self.tier, self.discharged, self.obligations, self.evaluations, len(self.nontrivial),
                     len(self.mismatches), len(self.fails), nviol, time.time() - self.t0))
